@@ -369,7 +369,11 @@ func newScenH(e env, rec *recorder, mkHandler func(*scen) rpc.HandlerFunc, clien
 	s.srvAddr = ln.Addr().String()
 	go func() { _ = s.srv.Serve(ln) }()
 	for _, c := range clients {
-		copts := []rpc.ClientOptionsFunc{rpc.ClientWithLogf(s.logf), rpc.ClientWithMaxReconnectDelay(50 * time.Millisecond)}
+		// A long packet timeout keeps the client from pinging: while a server receive loop waits
+		// for request memory or a worker it does not answer pings, and a client with the default
+		// 10 s timeout would drop the connection after ~20 s of such waiting (seen on a loaded machine).
+		copts := []rpc.ClientOptionsFunc{rpc.ClientWithLogf(s.logf), rpc.ClientWithMaxReconnectDelay(50 * time.Millisecond),
+			rpc.ClientWithPacketTimeout(3 * time.Minute)}
 		if e.Key != "" {
 			copts = append(copts, rpc.ClientWithCryptoKey(e.Key), rpc.ClientWithForceEncryption(true))
 		}
@@ -966,7 +970,7 @@ func opBurst(q request) map[string]any {
 		rec.mu.Lock()
 		run := s.running
 		rec.mu.Unlock()
-		if run >= expectCap && s.srv.RequestsCurrent() > int64(run) {
+		if run >= expectCap && (q.Env.MaxWorkers == 0 || s.srv.RequestsCurrent() > int64(run)) {
 			piled = true
 			break
 		}
@@ -1024,9 +1028,9 @@ func opBurst(q request) map[string]any {
 	defer w.Flush()
 	r := map[string]any{"calls": total, "peak": s.peak, "limit": limit, "maxWorkers": maxW, "piled": piled}
 	r["events"] = rec.flush(w)
+	r["rpclog"] = s.logs()
 	if len(hung) > 0 {
 		r["hung"] = hung
-		r["rpclog"] = s.logs()
 	}
 	return r
 }
